@@ -252,11 +252,15 @@ impl Compactor {
             interval.tick().await; // Skip first immediate tick
             loop {
                 interval.tick().await;
-                if let Err(e) = metadata.renew_lease(&lease_id).await {
-                    warn!(lease_id = %lease_id, error = %e, "Failed to renew compaction lease");
-                    break;
+                // A failed renewal is not final: a transient error (lost CAS races on the
+                // shared lease file, a 5xx) leaves the lease live, and the next tick is
+                // still inside its TTL. The task ends when the compaction does.
+                match metadata.renew_lease(&lease_id).await {
+                    Ok(()) => debug!(lease_id = %lease_id, "Renewed compaction lease"),
+                    Err(e) => {
+                        warn!(lease_id = %lease_id, error = %e, "Failed to renew compaction lease, will retry")
+                    }
                 }
-                debug!(lease_id = %lease_id, "Renewed compaction lease");
             }
         }))
     }
